@@ -231,7 +231,7 @@ def plan_C13(ctx):
 
 def plan_C16(ctx):
     ctx.build()
-    leaves = '{"nil", "z", "es", "f15"}' if ctx.quick else '{"nil", "t", "z", "m1", "es", "a", "f15", "n0"}'
+    leaves = '{"nil", "z", "es", "f15", "ctl"}' if ctx.quick else '{"nil", "t", "z", "m1", "es", "a", "f15", "n0", "ctl"}'
     cases, st = fam_codec.mc_generic(ctx.work, "MCJsonAny", "  Env <- MCEnv\n  Leaves = %s\n  Depth = 2\n  Emit = TRUE\n" % leaves,
                                      "RoundTrip Skippable MatcherSound", timeout=3000)
     ctx.add_mc(st)
